@@ -44,6 +44,8 @@ ATTRS = {
     "circle-cy": lambda v: f'<circle id="s" cy="{v}" r="2"/>',
     "rect-y": lambda v: f'<rect id="s" y="{v}" width="5" height="4"/>',
     "line-y1": lambda v: f'<line id="s" y1="{v}" x2="4" y2="4"/>',
+    "text-x-only": lambda v: f'<text id="s" x="{v}">label</text>',
+    "text-y-only": lambda v: f'<text id="s" y="{v}">label</text>',
     "use-x": lambda v: f'<rect id="t" x="0" y="0" width="3" height="3"/><use id="s" href="#t" x="{v}" y="2"/>',
 }
 # fully specified shapes: (attribute, plain value) in the order written; "solo" cases replace exactly one value
@@ -186,6 +188,9 @@ def preserved(inp, out):
             if x.name == "text" and "class" in extra and all(t.startswith("d-text") for t in y.attrs["class"].split()):
                 # the documented reinterpretation: character content of <text> is re-emitted as generated text
                 extra.remove("class")
+            if x.name == "text":
+                # a position the author left out may be written out as what SVG takes it to be: 0
+                extra = [k for k in extra if not (k in ("x", "y") and numbers_equal("0", y.attrs[k]))]
             if x.name == "svg" and root:
                 extra = [k for k in extra if k not in ("version", "xmlns", "width", "height", "viewBox")]
             if extra:
